@@ -206,3 +206,77 @@ func init() {
 		return false
 	}
 }
+
+// neutralise returns a copy of the world in which the trigger of the finding is
+// removed from every value (the offending lines are replaced by plain text of
+// the same length class), or nil if the finding has no textual trigger.
+func neutralise(w *check.World, id string) *check.World {
+	if id != "K1" && id != "K2" {
+		return nil
+	}
+	c := cloneWorld(w)
+	fix := func(s string) string {
+		lines := strings.Split(s, "\n")
+		for i, l := range lines {
+			switch {
+			case id == "K1" && l == "/-/-/-/":
+				lines[i] = "/-/-/-/ x"
+			case id == "K2" && headerLikeRE.MatchString(l):
+				lines[i] = "(" + l[1:]
+			}
+		}
+		return strings.Join(lines, "\n")
+	}
+	for _, l := range c.Lifetimes {
+		walk(l.Tests, func(n *scen.TestNode) {
+			for _, st := range n.Steps {
+				if st.Kind != "call" {
+					continue
+				}
+				for vi := range st.Call.Values {
+					v := &st.Call.Values[vi]
+					switch v.K {
+					case "s", "b":
+						v.S = []byte(fix(string(v.S)))
+					case "ss":
+						for k := range v.L {
+							v.L[k] = fix(v.L[k])
+						}
+					}
+				}
+			}
+		})
+	}
+	return c
+}
+
+// causal: the violation attributed to a textual known finding must disappear
+// when the trigger is neutralised; if the same oracle still fires for the same
+// item, it is not that finding.
+func causal(env *check.Env, w *check.World, kv *check.Violation, prop string) bool {
+	n := neutralise(w, kv.Known)
+	if n == nil {
+		return true
+	}
+	out := check.RunWorld(env, n)
+	if out.Infra != "" {
+		return true
+	}
+	same := func(v *check.Violation) bool {
+		return v != nil && v.Oracle == kv.Oracle && v.Life == kv.Life && v.CallID == kv.CallID && v.Item == kv.Item && v.Has(prop)
+	}
+	if same(out.Viol) {
+		return false
+	}
+	for _, v := range out.Known {
+		if same(v) {
+			return false
+		}
+	}
+	for _, v := range out.Cross {
+		if same(v) {
+			return false
+		}
+	}
+	return true
+}
